@@ -1092,7 +1092,7 @@ func main() {
 		os.Exit(2)
 	}
 	initAlphabets()
-	if len(os.Args) >= 4 && os.Args[2] == "--replay" {
+	if len(os.Args) >= 4 && (os.Args[2] == "--replay" || os.Args[2] == "-replay") {
 		os.Exit(replay(os.Args[3]))
 	}
 	os.Exit(run())
